@@ -777,12 +777,30 @@ def install(fresh=False):
   return ao
 
 
+def _empty_slot(dec):
+  """Forget the instance a singleton wrapper holds.  The shipped wrapper keeps it in `.instance`;
+  a tree that keeps it elsewhere is searched for a mapping keyed by the wrapped class (best
+  effort - a harness that cannot empty the slot still runs, on whatever instance exists)."""
+  try:
+    dec.instance = None
+    return
+  except AttributeError:
+    pass
+  klass = getattr(dec, "klass", None)
+  for holder in (dec, type(dec)):
+    for v in list(vars(holder).values()):
+      try:
+        if klass is not None and hasattr(v, "pop") and klass in v:
+          v.pop(klass)
+      except Exception:
+        pass
+
+
 def reset(ao=None):
   """Fresh singletons for a new case (fabric, run event, writer)."""
   if ao is None:
     import miros.activeobject as ao
-  ao.FiberThreadEvent.instance = None
-  ao.ActiveFabric.instance = None
-  ao.InstrumentionWriter.instance = None
+  for dec in (ao.FiberThreadEvent, ao.ActiveFabric, ao.InstrumentionWriter):
+    _empty_slot(dec)
   ao.uuid = VUuid()
   VThread._count = 0
